@@ -353,3 +353,88 @@ func init() {
 			c.Sample("math.pow(\"a\", null) -> error")
 		}})
 }
+
+// ---------------------------------------------------------------------------
+// one call site, several bridged functions: the function is selected by a name
+// computed at run time (math[name](...)), so one syntax-tree node calls different
+// Go functions on successive evaluations. Each call must reach the function its
+// name denotes at that moment (reference: the adapter called directly).
+
+func init() {
+	register(&Part{Prop: "C19", Name: "computed-function-names", Quick: 1, Thor: 1,
+		Desc: "every ordered pair and triple of names from {floor, ceil, abs, sqrt, trunc, pow, max, signbit} called through ONE call site math[n](args) in a loop and through a helper function, for args in {(2.5), (-1.5), (4), (2, 3), ()}: each result / error verdict must equal what ECALFunctionAdapter.Run gives for that name",
+		Rule: "sequences of names x argument vectors x {loop, helper function}; every case non-trivial",
+		Run: func(c *Ctx) {
+			names := []string{"floor", "ceil", "abs", "sqrt", "trunc", "pow", "max", "signbit"}
+			argSets := [][]float64{{2.5}, {-1.5}, {4}, {2, 3}, {}}
+			direct := func(name string, args []float64) string {
+				f, ok := stdlib.GetStdlibFunc("math." + name)
+				if !ok {
+					return "unknown"
+				}
+				var a []interface{}
+				for _, x := range args {
+					a = append(a, x)
+				}
+				ret, err := f.Run("", nil, nil, 1, a)
+				if err != nil {
+					return "error"
+				}
+				return render(ret)
+			}
+			var seqs [][]string
+			for _, a := range names {
+				for _, b := range names {
+					seqs = append(seqs, []string{a, b})
+					for _, d := range names {
+						seqs = append(seqs, []string{a, b, d})
+					}
+				}
+			}
+			for _, seq := range seqs {
+				for _, args := range argSets {
+					if !c.Mine() {
+						continue
+					}
+					var as, ns, want []string
+					for _, x := range args {
+						as = append(as, fmt.Sprint(x))
+					}
+					for _, n := range seq {
+						ns = append(ns, fmt.Sprintf("%q", n))
+						want = append(want, direct(n, args))
+					}
+					for _, form := range []string{
+						"r := []\nfor n in [%s] {\n  try {\n    r := add(r, math[n](%s))\n  } except {\n    r := add(r, \"error\")\n  }\n}",
+						"func call(n) {\n  try {\n    return math[n](%[2]s)\n  } except {\n    return \"error\"\n  }\n}\nr := []\nfor n in [%[1]s] {\n  r := add(r, call(n))\n}",
+					} {
+						src := fmt.Sprintf(form, strings.Join(ns, ", "), strings.Join(as, ", "))
+						c.Begin(src)
+						out := evalECAL(src, evalOpts{budget: 20000})
+						if out.panicKey != "" || out.err != nil {
+							c.Viol("computed-name program fails", fmt.Sprintf("%v %v\n%s", out.panicKey, out.err, src), src)
+							continue
+						}
+						c.Nontrivial()
+						v, _, _ := out.vs.GetValue("r")
+						var got []string
+						if l, ok := v.([]interface{}); ok {
+							for _, e := range l {
+								if s, isS := e.(string); isS && s == "error" {
+									got = append(got, "error")
+								} else {
+									got = append(got, render(e))
+								}
+							}
+						}
+						if fmt.Sprint(got) != fmt.Sprint(want) {
+							c.Viol("call through a computed name reaches the wrong function", fmt.Sprintf("names %v with arguments %v through one call site: results %v, the functions themselves give %v\n%s", seq, args, got, want, src), src)
+							continue
+						}
+						c.Outcome("same-as-direct")
+					}
+				}
+			}
+			c.Sample(`for n in ["floor", "ceil"] { r := add(r, math[n](2.5)) }  ->  [2 3]`)
+		}})
+}
